@@ -18,6 +18,18 @@ _ALLOC_BLOCK = (
     "                if limited:\n"
     "                    remaining_space -= max_space_per_bucket\n")
 
+_ABORT_TAIL = (
+    "        self.closed = True\n"
+    "        self.ss.bucket_writer_closed(self, 0)\n"
+    "\n"
+    "        # Cancel timeout if it wasn't already cancelled.\n"
+    "        if self._timeout.active():\n"
+    "            self._timeout.cancel()\n")
+_ABORT_HEAD = (
+    "    def abort(self):\n"
+    "        log.msg(\"storage: aborting sharefile %s\" % self.incominghome,\n"
+    "                facility=\"tahoe.storage\", level=log.UNUSUAL)\n")
+
 MUTANTS = [
     # ---- C28.1 the account
     M("in-progress-not-counted", SRV,
@@ -95,7 +107,81 @@ MUTANTS = [
     M("avail-key-swapped", FU,
       "        return get_disk_stats(whichdir, reserved_space)['avail']",
       "        return get_disk_stats(whichdir, reserved_space)['free_for_nonroot']", "C28.4"),
+    # ---- C28.5 the fired timer must reach the release
+    M("abort-cancels-timer-first", IMM, _ABORT_TAIL,            # the seeded C28-B mechanism
+      "        self._timeout.cancel()\n"
+      "        self.closed = True\n"
+      "        self.ss.bucket_writer_closed(self, 0)\n", "C28.5"),
+    M("timeout-callback-cancels-timer", IMM,
+      "                facility=\"tahoe.storage\", level=log.UNUSUAL)\n        self.abort()\n",
+      "                facility=\"tahoe.storage\", level=log.UNUSUAL)\n        self._timeout.cancel()\n        self.abort()\n",
+      "C28.5"),
+    M("abort-stops-timer-via-helper", IMM, _ABORT_HEAD,
+      "    def _stop_timer(self):\n        self._timeout.cancel()\n\n" + _ABORT_HEAD + "        self._stop_timer()\n",
+      "C28.5", edits=[(IMM, _ABORT_TAIL, "        self.closed = True\n        self.ss.bucket_writer_closed(self, 0)\n")]),
+    M("abort-guard-inverted-before-release", IMM, _ABORT_TAIL,
+      "        if not self._timeout.active():\n"
+      "            self._timeout.cancel()\n"
+      "        self.closed = True\n"
+      "        self.ss.bucket_writer_closed(self, 0)\n", "C28.5"),
+    M("abort-catches-only-cancelled", IMM, _ABORT_TAIL,
+      "        try:\n"
+      "            self._timeout.cancel()\n"
+      "        except error.AlreadyCancelled:\n"
+      "            pass\n"
+      "        self.closed = True\n"
+      "        self.ss.bucket_writer_closed(self, 0)\n", "C28.5",
+      edits=[(IMM, "from zope.interface import implementer\n",
+              "from zope.interface import implementer\nfrom twisted.internet import error\n")]),
+    M("abort-pushes-timer-back-first", IMM,
+      "        os.remove(self.incominghome)\n",
+      "        self._timeout.reset(30 * 60)  # keep the timer away while we clean up\n        os.remove(self.incominghome)\n",
+      "C28.5"),
     # ---- benign
+    M("benign-guarded-cancel-before-release", IMM, _ABORT_TAIL,
+      "        if self._timeout.active():\n"
+      "            self._timeout.cancel()\n"
+      "        self.closed = True\n"
+      "        self.ss.bucket_writer_closed(self, 0)\n", None),
+    M("benign-guard-hoisted-alias", IMM, _ABORT_TAIL,
+      "        timer = self._timeout\n"
+      "        still_armed = timer.active()\n"
+      "        if still_armed:\n"
+      "            timer.cancel()\n"
+      "        self.closed = True\n"
+      "        self.ss.bucket_writer_closed(self, 0)\n", None),
+    M("benign-cancel-caught-before-release", IMM, _ABORT_TAIL,
+      "        try:\n"
+      "            self._timeout.cancel()\n"
+      "        except (error.AlreadyCalled, error.AlreadyCancelled):\n"
+      "            pass\n"
+      "        self.closed = True\n"
+      "        self.ss.bucket_writer_closed(self, 0)\n", None,
+      edits=[(IMM, "from zope.interface import implementer\n",
+              "from zope.interface import implementer\nfrom twisted.internet import error\n")]),
+    M("benign-cancel-suppressed-before-release", IMM, _ABORT_TAIL,
+      "        with suppress(error.AlreadyCalled, error.AlreadyCancelled):\n"
+      "            self._timeout.cancel()\n"
+      "        self.closed = True\n"
+      "        self.ss.bucket_writer_closed(self, 0)\n", None,
+      edits=[(IMM, "from zope.interface import implementer\n",
+              "from zope.interface import implementer\nfrom contextlib import suppress\nfrom twisted.internet import error\n")]),
+    M("benign-release-in-finally", IMM, _ABORT_TAIL,
+      "        try:\n"
+      "            if self._timeout.active():\n"
+      "                self._timeout.cancel()\n"
+      "        finally:\n"
+      "            self.closed = True\n"
+      "            self.ss.bucket_writer_closed(self, 0)\n", None),
+    M("benign-unguarded-cancel-but-finally-releases", IMM, _ABORT_TAIL,
+      "        try:\n"
+      "            self._timeout.cancel()\n"
+      "        finally:\n"
+      "            self.closed = True\n"
+      "            self.ss.bucket_writer_closed(self, 0)\n", None),
+    M("benign-timer-calls-abort-directly", IMM,
+      "        self._timeout = clock.callLater(30 * 60, self._abort_due_to_timeout)",
+      "        self._timeout = clock.callLater(30 * 60, self.abort)", None),
     M("benign-flipped-compare", SRV,
       "            elif (not limited) or (remaining_space >= max_space_per_bucket):",
       "            elif (not limited) or not (max_space_per_bucket > remaining_space):", None),
@@ -118,6 +204,9 @@ MUTANTS = [
       "    avail = max(free_for_nonroot - reserved_space, 0)",
       "    unreserved = free_for_nonroot - reserved_space\n    avail = max(0, unreserved)", None),
     # ---- vanished anchor
+    M("vanish-timeout-callback-no-longer-aborts", IMM,
+      "                facility=\"tahoe.storage\", level=log.UNUSUAL)\n        self.abort()\n",
+      "                facility=\"tahoe.storage\", level=log.UNUSUAL)\n", "ANALYSIS-ERROR"),
     M("vanish-bucket-writer-closed", SRV, "    def bucket_writer_closed(self, bw, consumed_size):",
       "    def bucket_writer_done(self, bw, consumed_size):", "ANALYSIS-ERROR"),
 ]
